@@ -7,6 +7,7 @@ export CARGO_TARGET_DIR=$WT/target CARGO_NET_OFFLINE=true
 LOG=$WT/confirm.log
 : > $LOG
 git checkout -q -- . 2>/dev/null
+git clean -fdq -e SEED -e target -e 'confirm*' 2>/dev/null
 git apply SEED/patch.diff || { echo "PATCH_APPLY_FAILED" >> $LOG; exit 1; }
 git apply SEED/demo.diff || { echo "DEMO_APPLY_FAILED" >> $LOG; exit 1; }
 CMD=$(grep -v '^#' SEED/demo_cmd.txt | grep cargo | head -1)
@@ -20,10 +21,12 @@ bash -c "$CMD" > $WT/confirm_without.out 2>&1; echo "rc_without=$?" >> $LOG
 grep -E "^test result|panicked|FAILED" $WT/confirm_without.out | head -8 >> $LOG
 # existing tests with the patch but without the demo
 git checkout -q -- .
+git clean -fdq -e SEED -e target -e 'confirm*' 2>/dev/null
 git apply SEED/patch.diff
 PKGS=$(git diff --name-only | cut -d/ -f1 | sort -u | sed 's/^/-p /' | tr '\n' ' ')
 echo "== existing tests with patch only: cargo test --offline -j 8 $PKGS" >> $LOG
 cargo test --offline -j 8 $PKGS > $WT/confirm_suite.out 2>&1; echo "rc_suite=$?" >> $LOG
 grep -E "^test result|FAILED|failed" $WT/confirm_suite.out | head -12 >> $LOG
 git checkout -q -- .
+git clean -fdq -e SEED -e target -e 'confirm*' 2>/dev/null
 echo DONE >> $LOG
